@@ -93,6 +93,10 @@ func (c *FnCtx) atom(prefix, term string) string {
 	n := c.declare(prefix, "Int")
 	c.assumeRaw(eq(n, term))
 	c.atoms[term] = n
+	if c.defs == nil {
+		c.defs = map[string]string{}
+	}
+	c.defs[n] = term
 	return n
 }
 
@@ -545,6 +549,12 @@ func bitSupport(v ssa.Value, depth int) (lo, hi uint) {
 	ii, ok := intInfoOf(v.Type())
 	if !ok || ii.signed {
 		if ok {
+			// a narrower unsigned value converted to a signed type keeps its support
+			if cv, isC := v.(*ssa.Convert); isC && depth <= 6 {
+				if si, ok2 := intInfoOf(cv.X.Type()); ok2 && !si.signed && si.bits > 0 && si.bits < ii.bits {
+					return bitSupport(cv.X, depth+1)
+				}
+			}
 			return 0, 64
 		}
 		return 0, 64
@@ -781,6 +791,19 @@ func (c *FnCtx) intBinop(st *State, op token.Token, x, y string, rt types.Type, 
 			}
 		} else {
 			c.assume(st, ii.inRange(r))
+		}
+		// one operand statically below 2^h: if the other is a multiple of
+		// 2^h the supports are disjoint and or/xor is addition
+		if xv != nil && yv != nil {
+			for _, pr := range [][3]interface{}{{yv, x, y}, {xv, y, x}} {
+				_, h := bitSupport(pr[0].(ssa.Value), 0)
+				big, small := pr[1].(string), pr[2].(string)
+				if h > 0 && h < 64 && (ii.bits == 0 || h < ii.bits) {
+					if si, ok := intInfoOf(pr[0].(ssa.Value).Type()); ok && !si.signed || h < 64 {
+						c.assume(st, implies(and(eq(sx("mod", big, pow2s(h)), "0"), sx("<=", "0", small), sx("<", small, pow2s(h))), eq(r, add(big, small))))
+					}
+				}
+			}
 		}
 		return r
 	case token.AND_NOT:
